@@ -138,7 +138,18 @@ def _run_check(ctx, engine):
         if still:
             print(f"KNOWN-FINDING: property={prop} {k['signature']}: {k['what']}")
             known_printed.append(k["signature"])
-    engine.run(ctx, res)
+    from . import cover
+    cover.start()
+    try:
+        engine.run(ctx, res)
+    finally:
+        cover.stop()
+    try:
+        cov = cover.report(prop)
+        if cov:
+            res.extra["anchored_code_coverage"] = cov
+    except Exception as e:  # noqa  (measurement only)
+        res.extra["anchored_code_coverage"] = {"error": repr(e)}
     new, old = classify(res.failures, known, prop)
     res.count("known_finding_hits", n=len(old))
 
